@@ -42,6 +42,32 @@ def runeError : Nat := 0xFFFD
 
 def isCont (b : Nat) : Bool := 0x80 ≤ b && b ≤ 0xBF
 
+/-- Go's `acceptRanges`: bounds of the SECOND byte for lead byte `b0` (E0: A0..BF, ED: 80..9F — no
+surrogates —, F0: 90..BF, F4: 80..8F, otherwise 80..BF). -/
+def secondLo (b0 : Nat) : Nat := if b0 = 0xE0 then 0xA0 else if b0 = 0xF0 then 0x90 else 0x80
+def secondHi (b0 : Nat) : Nat := if b0 = 0xED then 0x9F else if b0 = 0xF4 then 0x8F else 0xBF
+
+/-- 2-byte sequence after lead byte `b0` ∈ C2..DF. -/
+def dec2 (b0 : Nat) : Bytes → Nat × Nat
+  | b1 :: _ => if isCont b1 then ((b0 % 0x20) * 0x40 + b1 % 0x40, 2) else (runeError, 1)
+  | [] => (runeError, 1)
+
+/-- 3-byte sequence after lead byte `b0` ∈ E0..EF (E0: second byte A0..BF; ED: 80..9F, no surrogates). -/
+def dec3 (b0 : Nat) : Bytes → Nat × Nat
+  | b1 :: b2 :: _ =>
+    if secondLo b0 ≤ b1 && b1 ≤ secondHi b0 && isCont b2 then
+      ((b0 % 0x10) * 0x1000 + (b1 % 0x40) * 0x40 + b2 % 0x40, 3)
+    else (runeError, 1)
+  | _ => (runeError, 1)
+
+/-- 4-byte sequence after lead byte `b0` ∈ F0..F4 (F0: second byte 90..BF; F4: 80..8F). -/
+def dec4 (b0 : Nat) : Bytes → Nat × Nat
+  | b1 :: b2 :: b3 :: _ =>
+    if secondLo b0 ≤ b1 && b1 ≤ secondHi b0 && isCont b2 && isCont b3 then
+      ((b0 % 0x08) * 0x40000 + (b1 % 0x40) * 0x1000 + (b2 % 0x40) * 0x40 + b3 % 0x40, 4)
+    else (runeError, 1)
+  | _ => (runeError, 1)
+
 /-- `utf8.DecodeRuneInString` on a non-empty suffix: (rune, width). Invalid or short encodings give
 (U+FFFD, 1) exactly as Go does. -/
 def decodeRune : Bytes → Nat × Nat
@@ -49,28 +75,9 @@ def decodeRune : Bytes → Nat × Nat
   | b0 :: rest =>
     if b0 < 0x80 then (b0, 1)
     else if b0 < 0xC2 then (runeError, 1)
-    else if b0 < 0xE0 then
-      match rest with
-      | b1 :: _ => if isCont b1 then ((b0 % 0x20) * 0x40 + b1 % 0x40, 2) else (runeError, 1)
-      | _ => (runeError, 1)
-    else if b0 < 0xF0 then
-      let lo := if b0 = 0xE0 then 0xA0 else 0x80
-      let hi := if b0 = 0xED then 0x9F else 0xBF
-      match rest with
-      | b1 :: b2 :: _ =>
-        if lo ≤ b1 && b1 ≤ hi && isCont b2 then
-          ((b0 % 0x10) * 0x1000 + (b1 % 0x40) * 0x40 + b2 % 0x40, 3)
-        else (runeError, 1)
-      | _ => (runeError, 1)
-    else if b0 < 0xF5 then
-      let lo := if b0 = 0xF0 then 0x90 else 0x80
-      let hi := if b0 = 0xF4 then 0x8F else 0xBF
-      match rest with
-      | b1 :: b2 :: b3 :: _ =>
-        if lo ≤ b1 && b1 ≤ hi && isCont b2 && isCont b3 then
-          ((b0 % 0x08) * 0x40000 + (b1 % 0x40) * 0x1000 + (b2 % 0x40) * 0x40 + b3 % 0x40, 4)
-        else (runeError, 1)
-      | _ => (runeError, 1)
+    else if b0 < 0xE0 then dec2 b0 rest
+    else if b0 < 0xF0 then dec3 b0 rest
+    else if b0 < 0xF5 then dec4 b0 rest
     else (runeError, 1)
 
 /-- Character-class oracle for runes ≥ 0x80 (`unicode.IsLetter`, `IsDigit`, `IsSpace`). -/
